@@ -231,8 +231,12 @@ pub fn directed_inputs() -> Vec<(String, Vec<u8>)> {
     out.push(("OpSwitch odd case words".into(), mk(&[(4 << 16) | 251, 1, 2, 3])));
     // ext inst with and without import
     out.push(("OpExtInst without import".into(), mk(&[(6 << 16) | 12, 1, 2, 3, 4, 5])));
-    for num in [0u32, 1, 81, 82, u32::MAX] {
-        out.push((format!("GLSL import + OpExtInst {} inside a block", num), mk(&[(6 << 16) | 11, 3, 0x4c534c47, 0x6474732e, 0x3035342e, 0, (5 << 16) | 54, 2, 7, 0, 8, (2 << 16) | 248, 9, (6 << 16) | 12, 1, 10, 3, num, (1 << 16) | 253, (1 << 16) | 56])));
+    for num in [0u32, 1, 81, 82, 161, 162, 0x1_0000, u32::MAX] {
+        // (operand counts 0 and 1: the word count must match, or the terminator is swallowed and nothing loads)
+        out.push((format!("GLSL import + OpExtInst {} inside a block", num), mk(&[(6 << 16) | 11, 3, 0x4c534c47, 0x6474732e, 0x3035342e, 0, (5 << 16) | 54, 2, 7, 0, 8, (2 << 16) | 248, 9, (5 << 16) | 12, 1, 10, 3, num, (1 << 16) | 253, (1 << 16) | 56])));
+        out.push((format!("GLSL import + OpExtInst {} with one operand inside a block", num), mk(&[(6 << 16) | 11, 3, 0x4c534c47, 0x6474732e, 0x3035342e, 0, (5 << 16) | 54, 2, 7, 0, 8, (2 << 16) | 248, 9, (6 << 16) | 12, 1, 10, 3, num, 11, (1 << 16) | 253, (1 << 16) | 56])));
+        // the same through an OpenCL.std import
+        out.push((format!("OpenCL import + OpExtInst {} inside a block", num), mk(&[(5 << 16) | 11, 3, 0x6e65704f, 0x732e4c43, 0x00006474, (5 << 16) | 54, 2, 7, 0, 8, (2 << 16) | 248, 9, (6 << 16) | 12, 1, 10, 3, num, 11, (1 << 16) | 253, (1 << 16) | 56])));
     }
     out.push(("GLSL import + OpExtInst unknown number".into(), mk(&[(6 << 16) | 11, 3, 0x4c534c47, 0x6474732e, 0x3035342e, 0, (6 << 16) | 12, 1, 2, 3, 999, 5])));
     // a numeric type id declared twice with different widths / kinds, a constant in between (sized by the
